@@ -40,6 +40,24 @@ def main():
                                   "tools/try_seed.sh patch.diff <properties>: the registered quick checks with VERIF_REPO pointing at a scratch copy with the patch applied"],
                     detection=det.get(sid, {}))
         json.dump(meta, open(os.path.join(d, "meta.json"), "w"), indent=1)
+    # markdown table for DESIGN.md §10.5 (seeded/TABLE.md)
+    rows = ["| seed | breaks | what it needs to manifest | first trial | reported by (final machinery, quick tier) | strengthening made |",
+            "|---|---|---|---|---|---|"]
+    for sid, m in sorted(SEEDS.items()):
+        e = det.get(sid, {})
+        f = e.get("final", {})
+        by = []
+        if f.get("n_contract"):
+            by.append(f"{f['n_contract']} contract obligation(s), e.g. `{f['contract_obligations'][0][:110]}`")
+        if f.get("n_table"):
+            by.append(f"{f['n_table']} table cell(s), e.g. `{f['tables'][0][:90]}`")
+        if f.get("n_seam"):
+            by.append(f"{f['n_seam']} bounded seam input(s), e.g. `{f['bounded_seams'][0][:90]}`")
+        if f.get("undecided"):
+            by.append(f"{len(f['undecided'])} obligation(s) UNDECIDED")
+        verdict = "exit %s" % f.get("exit", "?")
+        rows.append(f"| {sid} | {m['property']} | {m['needs'].split(':')[0][:160]} | {e.get('first_trial', '?')} | {verdict}: " + "; ".join(by) + f" | {e.get('strengthening', '')} |")
+    open(os.path.join(ROOT, "seeded", "TABLE.md"), "w").write("\n".join(rows) + "\n")
     print("meta written for", len([s for s in SEEDS if os.path.isdir(os.path.join(ROOT, "seeded", s))]), "seeds")
 
 if __name__ == "__main__":
